@@ -119,9 +119,17 @@ pub fn run(tier: &str, seed: u64, em: &mut Emitter) {
             emit(em, "systematic", &scenario_mainline(tx, ty), r.next());
             emit(em, "systematic", &scenario_chain_through_unconflicted(tx, ty), r.next());
             emit(em, "systematic", &scenario_concurrent_moderators(tx, ty), r.next());
+            for f in [false, true] {
+                emit(em, "systematic", &crate::c07::scenario_duplicate_power_levels_slot(tx + 10, ty + 10, f), r.next());
+            }
             for v in [8u8, 10] {
                 emit(em, "systematic", &crate::c07::scenario_restricted_join_vs_ban(v, tx + 10, ty + 10), r.next());
             }
+        }
+    }
+    for ts in [5u64, 25, 40] {
+        for f in [false, true] {
+            emit(em, "systematic", &crate::c07::scenario_duplicate_member_slot(ts, f), r.next());
         }
     }
     // long one-sided forks (sizes around the powers of two and ten that caps and batch sizes like)
@@ -137,6 +145,11 @@ pub fn run(tier: &str, seed: u64, em: &mut Emitter) {
         for nodes in pick_subsets(&mut s, 4) {
             let c = s.case_for(&nodes);
             emit(em, "history", &c, r.next());
+            if r.chance(1, 4) {
+                if let Some(m) = crate::c07::duplicate_slot_variant(&c, &mut r) {
+                    emit(em, "duplicate-slot", &m, r.next());
+                }
+            }
         }
     }
 }
